@@ -329,10 +329,25 @@ func (w *world) generate(mode, cwd, arg string) (*output, string) {
 		wd = w.dir
 	case "parent":
 		wd = w.root
+	case "link":
+		// the directory reached through a symbolic link (inside the module): cd link && lox .
+		wd = filepath.Join(w.root, "pkglink")
+		if _, err := os.Lstat(wd); err != nil {
+			if err := os.Symlink("pkg", wd); err != nil {
+				return nil, "harness: " + err.Error()
+			}
+		}
 	default:
 		wd = "/"
 	}
 	target := w.dir
+	if cwd == "link" {
+		target = wd
+		if arg == "rel" {
+			target = "."
+		}
+		arg = "abs"
+	}
 	if arg == "rel" {
 		r, err := filepath.Rel(wd, w.dir)
 		if err != nil {
@@ -344,7 +359,14 @@ func (w *world) generate(mode, cwd, arg string) (*output, string) {
 	if mode == "inproc" {
 		genMu.Lock()
 		os.Chdir(wd)
+		oldPWD, hadPWD := os.LookupEnv("PWD")
+		os.Setenv("PWD", wd) // what a shell does on cd (os.Getwd prefers $PWD when it names the current directory)
 		gr := loxb.Generate(target, true)
+		if hadPWD {
+			os.Setenv("PWD", oldPWD)
+		} else {
+			os.Unsetenv("PWD")
+		}
 		os.Chdir(w.cwd0)
 		genMu.Unlock()
 		if gr.Panic != nil {
@@ -361,7 +383,7 @@ func (w *world) generate(mode, cwd, arg string) (*output, string) {
 		}
 		cmd := exec.Command(bin, "--report", target)
 		cmd.Dir = wd
-		cmd.Env = append(os.Environ(), "GOFLAGS=-mod=mod", "GOMAXPROCS=2")
+		cmd.Env = append(os.Environ(), "GOFLAGS=-mod=mod", "GOMAXPROCS=2", "PWD="+wd)
 		var so, se bytes.Buffer
 		cmd.Stdout, cmd.Stderr = &so, &se
 		if err := cmd.Run(); err != nil {
@@ -479,7 +501,7 @@ func genHistory(rt *rapid.T, pool []*Spec) []Step {
 			h = append(h, Step{Op: "touchUserFile"})
 		default:
 			mode := []string{"inproc", "inproc", "subprocess"}[ri(rt, 0, 2, "mode")]
-			cwd := []string{"dir", "parent", "root"}[ri(rt, 0, 2, "cwd")]
+			cwd := []string{"dir", "parent", "root", "link"}[ri(rt, 0, 3, "cwd")]
 			arg := []string{"abs", "rel"}[ri(rt, 0, 1, "arg")]
 			h = append(h, Step{Op: "generate", Arg: mode + "/" + cwd + "/" + arg})
 		}
